@@ -68,6 +68,18 @@ M = [
  ("C08__recoverable_v_masked", "secec/ecdsa.go", "sig = BuildCompactRecoverableSignature(r, s, v)", "sig = BuildCompactRecoverableSignature(r, s, v&1)"),
  ("C08__compact_order_swapped", "secec/s11n.go", "\tdst = append(dst, r.Bytes()...)\n\tdst = append(dst, s.Bytes()...)", "\tdst = append(dst, s.Bytes()...)\n\tdst = append(dst, r.Bytes()...)"),
  ("C08__kinv_of_r", "secec/ecdsa.go", "kInv := secp256k1.NewScalar().Invert(k) //nolint:revive", "kInv := secp256k1.NewScalar().Invert(r) //nolint:revive"),
+ ("C09__reduce_instead_of_reject", "secec/ecdsa.go", "if didReduce == 0 && s.IsZero() == 0 { // Short circuit reject is ok.", "if didReduce <= 1 && s.IsZero() == 0 { // Short circuit reject is ok."),
+ ("C09__entropy_16_bytes", "secec/ecdsa.go", "if _, err := io.ReadFull(rand, tmp[:]); err != nil {\n\t\treturn nil, fmt.Errorf(\"%w: %w\", errEntropySource, err)\n\t}\n\n\txof :=", "if _, err := io.ReadFull(rand, tmp[:16]); err != nil {\n\t\treturn nil, fmt.Errorf(\"%w: %w\", errEntropySource, err)\n\t}\n\n\txof :="),
+ ("C09__xof_order", "secec/ecdsa.go", "\t_, _ = xof.Write(tmp[:])\n\t_, _ = xof.Write(e.Bytes())", "\t_, _ = xof.Write(e.Bytes())\n\t_, _ = xof.Write(tmp[:])"),
+ ("C09__entropy_not_mixed", "secec/ecdsa.go", "\t_, _ = xof.Write(tmp[:])\n", "\t_ = tmp\n"),
+ ("C09__key_not_mixed", "secec/ecdsa.go", "\t_, _ = xof.Write(k.scalar.Bytes())\n", "\t_, _ = xof.Write(e.Bytes())\n"),
+ ("C09__drbg_skip_updateK", "secec/ecdsa_k_rfc6979.go", "\t\tdrbg.updateK()\n\t\tdrbg.updateV()\n\t}", "\t\tdrbg.updateV()\n\t}"),
+ ("C09__drbg_octet", "secec/ecdsa_k_rfc6979.go", "\t_, _ = m.Write([]byte{0x00})\n\tdrbg.k = m.Sum(drbg.k[:0])", "\t_, _ = m.Write([]byte{0x01})\n\tdrbg.k = m.Sum(drbg.k[:0])"),
+ ("C09__drbg_init_order", "secec/ecdsa_k_rfc6979.go", "\tinitUpdateK(0x00) // Step d\n\tdrbg.updateV()    // Step e\n\tinitUpdateK(0x01) // Step f", "\tinitUpdateK(0x01) // Step d\n\tdrbg.updateV()    // Step e\n\tinitUpdateK(0x00) // Step f"),
+ ("C09__drbg_missing_final_updateV", "secec/ecdsa_k_rfc6979.go", "\tinitUpdateK(0x01) // Step f\n\tdrbg.updateV()    // Step g\n", "\tinitUpdateK(0x01) // Step f\n"),
+ ("C09__sampler_nine_tries", "secec/ecdsa.go", "for i := 0; i < maxScalarResamples; i++ {", "for i := 0; i <= maxScalarResamples; i++ {"),
+ ("C09__read_error_ignored", "secec/ecdsa.go", "\t\tif _, err := io.ReadFull(rand, tmp[:]); err != nil {\n\t\t\treturn nil, fmt.Errorf(\"%w: %w\", errEntropySource, err)\n\t\t}\n\n\t\t_, didReduce", "\t\t_, _ = io.ReadFull(rand, tmp[:])\n\n\t\t_, didReduce"),
+ ("C09__sentinel_ignored", "secec/ecdsa.go", "\tcase readerRFC6979SHA256:\n\t\treturn newDrbgRFC6979(k.scalar, e), nil\n\tcase nil:", "\tcase nil, readerRFC6979SHA256:"),
  ("C11__negE_dropped", "secec/ecdsa.go", "u1 := secp256k1.NewScalar().Multiply(negE, rInv)", "u1 := secp256k1.NewScalar().Multiply(e, rInv)\n\t_ = negE"),
  ("C11__id_bound", "point_s11n.go", "if recoveryID >= 4 {", "if recoveryID > 4 {"),
  ("C11__s_zero_allowed", "secec/ecdsa.go", "if r.IsZero() != 0 || s.IsZero() != 0 {\n\t\treturn nil, errInvalidRorS\n\t}\n\n\t// This roughly", "if r.IsZero() != 0 {\n\t\treturn nil, errInvalidRorS\n\t}\n\n\t// This roughly"),
